@@ -81,7 +81,9 @@ C03Fails(t) ==
                          ELSE "C03:stale-view-final-value-never-delivered") : i \in stale }
     \* with backpressure every commit made after the subscriber was registered is delivered
     \* (with an equivalence configured a commit of the value the subscriber holds is rightly not delivered)
-    \cup (IF t.kinds[s].lossy \/ t.kinds[s].inc \/ t.equiv \notin {"", "none"} THEN {}
+    \* (a single-item subscription registers from a goroutine of its own: the instant is not recorded, so "after its
+    \*  registration" is not decidable here -- its view is judged like everybody's)
+    \cup (IF t.kinds[s].lossy \/ t.kinds[s].inc \/ t.kinds[s].pid \/ t.equiv \notin {"", "none"} THEN {}
           ELSE UNION { LET e == t.commits[k] IN
                        If(Cardinality({ j \in after : t.commits[j].id = e.id /\ t.commits[j].v = e.v })
                             <= Count(evs, e.id, e.v, TRUE), "C03:commit-not-delivered") : k \in after })
